@@ -35,3 +35,9 @@ Proof.
   inversion H as [|? ? Hn Ht]; subst. constructor; [|auto].
   intros Hin. apply Hn. apply in_or_app. left. exact Hin.
 Qed.
+
+Lemma firstn_seq (d lo n : nat) : firstn d (seq lo n) = seq lo (Nat.min d n).
+Proof.
+  revert lo n; induction d as [|d IH]; intros lo n; [reflexivity|].
+  destruct n as [|n]; [reflexivity|]. cbn [seq firstn Nat.min]. f_equal. apply IH.
+Qed.
